@@ -716,6 +716,69 @@ def spell_pairs(g, thorough):
     g.spell = False
     return out
 
+def operand_cases(rng, thorough):
+    """C04 at source level, written from syntax.md and NOT from the grammar: every memory-operand shape x
+    {no override, ES, CS, SS, DS} x base x index x displacement kind, inside a few instruction frames.
+    Yields (source program, the instruction in interpreter syntax built from the same parts)."""
+    def case(w):
+        return rng.choice([w, w.upper()])
+    def sp():
+        return rng.choice(["", " ", "  ", "\t"])
+    def num16(v, signed):
+        """a spelling of the 16-bit value v and the value the interpreter line carries"""
+        forms = [str(v), "0x%x" % v, "0x%X" % v, "0b" + bin(v)[2:]]
+        if signed and v >= 0x8000: forms.append(str(v - 0x10000))
+        if v < 2: forms.append("0b%d" % v)
+        return rng.choice(forms)
+    disps = [0, 1, 2, 3, 5, 0x7f, 0x80, 0xff, 0x100, 0x7fff, 0x8000, 0xfffe, 0xffff]
+    frames = [  # (source frame, interpreter frame, width keyword)
+        ("mov ax, word {M}", "mov ax, word {I}"), ("mov byte {M}, bl", "mov byte {I},bl"),
+        ("mov word {M}, 0x1234", "mov word {I},4660"), ("mov ch, byte {M}", "mov ch, byte {I}"),
+        ("add word {M}, 7", "add word {I},7"), ("sub dl, byte {M}", "sub dl, byte {I}"),
+        ("lea dx, word {M}", "lea dx , word {I}"), ("inc byte {M}", "inc byte {I}"),
+        ("xchg cl, byte {M}", "xchg byte {I} ,cl"), ("push word {M}", "push word {I}"), ("pop word {M}", "pop word {I}"),
+        ("not byte {M}", "not byte {I}"), ("neg word {M}", "neg word {I}"), ("test word {M}, ax", "test word {I},ax"),
+        ("and byte {M}, 15", "and byte {I},15"), ("shl word {M}, 1", "sal word {I},1"), ("ror byte {M}, cl", "ror byte {I},cl"),
+        ("cmp byte {M}, 3", "cmp byte {I}, 3"), ("mul word {M}", "mul word {I}"), ("idiv byte {M}", "idiv byte {I}"),
+    ]
+    out = []
+    segs = [None, "es", "cs", "ss", "ds"]
+    shapes = []
+    for sg in segs:
+        shapes.append((sg, None, None, "direct"))
+        for r in ("bx", "bp", "si", "di"):
+            shapes.append((sg, r, None, "indirect"))
+        for b in ("bx", "bp"):
+            shapes.append((sg, b, None, "disp"))
+            for i in ("si", "di"):
+                shapes.append((sg, b, i, "nodisp"))
+                shapes.append((sg, b, i, "disp"))
+        for i in ("si", "di"):
+            shapes.append((sg, None, i, "disp"))
+    reps = 6 if thorough else 1
+    for (sg, b, i, kind) in shapes:
+        for (fs, fi) in frames:
+            for _ in range(reps):
+                d = rng.choice(disps) if rng.random() < 0.7 else rng.randrange(0x10000)
+                if kind == "direct":
+                    src_in = num16(d, False); int_in = str(d)
+                elif kind == "indirect":
+                    src_in = case(b); int_in = b
+                else:
+                    parts_s = [case(x) for x in (b, i) if x]; parts_i = [x for x in (b, i) if x]
+                    if kind == "disp":
+                        parts_s.append(num16(d, True)); parts_i.append(str(d - 0x10000 if d >= 0x8000 else d))
+                    else:
+                        parts_i.append("0")
+                    src_in = (sp() + "," + sp()).join(parts_s); int_in = ",".join(parts_i)
+                M = (case(sg) + sp() if sg else "") + "[" + sp() + src_in + sp() + "]"
+                I = (sg + ":" if sg else "") + "[" + int_in + "]"
+                src = fs.replace("{M}", M)
+                if rng.random() < 0.3 and "0x" not in src and "0b" not in src:
+                    src = src.upper()
+                out.append(("start:\n" + src + "\n", fi.replace("{I}", I)))
+    return out
+
 def main():
     group, tier, seed = sys.argv[1], sys.argv[2], int(sys.argv[3])
     shard, nshards = (int(sys.argv[4]), int(sys.argv[5])) if len(sys.argv) > 5 else (0, 1)
@@ -726,6 +789,11 @@ def main():
             if i % nshards == shard:
                 strip = lambda t: re.sub(r";.*\n?", "\n", t)      # the driver's comment stripping (the library API gets stripped text)
                 sys.stdout.write("asm2 " + enc(strip(a)) + " " + enc(strip(b)) + " " + ("-" if not vals else ".".join(map(str, vals))) + "\n")
+        return
+    if group == "operands":
+        for i, (src, line) in enumerate(operand_cases(g.rng, thorough)):
+            if i % nshards == shard:
+                sys.stdout.write("opnd " + enc(src) + " " + enc(line) + "\n")
         return
     if os.environ.get("VERIF_L3_KIND", "asm") == "cli":
         cases = []
